@@ -649,7 +649,9 @@ def main(run):
     for name in vcore.props_theorems("C17/Props.v"):
         run.oblige(name, ok and name in pa, "static theorem")
         if ok and name in pa and "Closed under the global context" not in pa[name]:
-            run.axioms.add(pa[name])
+            import re
+            for ax in re.findall(r"([A-Z]\w*(?:\.\w+)+)\s*:", pa[name]):
+                run.axioms.add(ax)
         if name.endswith("_refuted"):
             run.refuted.append(name[:-len("_refuted")])
     run.checker_cmds.append("make -C coq theories/C17/Props.vo")
